@@ -1311,6 +1311,59 @@ class C10(Machine):
         return {"bigrams_total": len(_BI), "trigrams_total": len(_TRI), "fault_bigrams_total": len(_FB)}
 
     # -----------------------------------------------------------------------------------------
+    @staticmethod
+    def _nullpad_predict(fresh, L, q):
+        D = bytes.fromhex(fresh[1]["b"])
+        last = D[-L:]
+        size = 8 * len(last) - q
+        if size < 0:
+            return ["exc", "ValueError"]
+        nb = (size + 7) // 8
+        keep = bytearray(last[:nb])
+        if size % 8 and nb:
+            keep[-1] &= (0xFF << (8 - size % 8)) & 0xFF
+        pred = D[:-L] + bytes(keep) if len(D) >= L else bytes(keep)
+        return ["ok", {"b": pred.hex()}]
+
+    def explain_nullpad_dec_orig(self, plan, v):
+        """The run as found: the failing step is dec() on an ECB/CBC+Nullpadding object and the
+        observed outcome is the fresh outcome with q zero bits stripped, where q is exactly the
+        pad count of the last enc() on that object when the object's history before the failing
+        step is clean (only successful, un-faulted enc/dec calls), and any multiple of 8 up to
+        the block size otherwise (an interrupted enc may or may not have set the count)."""
+        steps = plan["steps"]
+        fs = [s for s in steps if s["id"] == v["step"]]
+        if not fs or fs[0].get("name") != "dec":
+            return False
+        oi = fs[0].get("obj")
+        rec = plan["objects"][oi]
+        if rec.get("kind") not in ("ECB", "CBC") or rec.get("pad") != "Nullpadding":
+            return False
+        cip = plan["objects"][rec["cipher"]["obj"]]
+        while cip.get("kind") == "proxy":
+            cip = plan["objects"][cip["inner"]["obj"]]
+        L = {"AES": 16, "DES": 8, "TDEA": 8, "Serpent": 16}.get(cip["kind"]) or cip.get("blocksize", 0) // 8
+        fresh, got = v["detail"]["fresh"], v["detail"]["got"]
+        if not L or fresh[0] != "ok" or not isinstance(fresh[1], dict) or "b" not in fresh[1]:
+            return False
+        outc = plan.get("_outcomes", {})
+        before = []
+        for s in steps:
+            if s["id"] == v["step"]:
+                break
+            if s.get("obj") == oi:
+                before.append(s)
+        clean = all(s.get("k") == "call" and s.get("name") in ("enc", "dec") and not s.get("fault")
+                    and outc.get(str(s["id"]), ["?"])[0] == "ok" for s in before)
+        encs = [s for s in before if s.get("name") == "enc"]
+        if clean and encs and isinstance(encs[-1]["args"][0], dict) and "b" in encs[-1]["args"][0]:
+            n = len(encs[-1]["args"][0]["b"]) // 2
+            r = n % L
+            qs = [8 * L if n == 0 else (0 if r == 0 else 8 * (L - r))]
+        else:
+            qs = [8 * i for i in range(1, L + 1)]
+        return any(got == self._nullpad_predict(fresh, L, q) for q in qs)
+
     def explain_nullpad_dec(self, plan, v):
         """Known finding C10/nullpadding-dec: a mode object built with Nullpadding strips, in
         dec(), the number of pad bits its *previous enc()* added.  True iff the minimised plan
